@@ -1,6 +1,7 @@
 """C07 check configuration (see lib/props.py for the field meanings)."""
 
 PROP = {
+    "level_text_more": "Client names of several words are searched for by lower-case words, and TestVFC07RegressLongRecord pages through files holding one record of generated size (11-48 KB answer) at a generated position: records above the reader's 16 KiB entry size are a listed open finding.",
     "thorough_scale": 4,
     "pkg": "internal/querylog",
     "files": ["querylog/c07_model_test.go", "querylog/c07_machine_test.go", "querylog/c07_props_test.go", "querylog/c07_budget_test.go", "querylog/c07_longline_test.go"],
